@@ -59,7 +59,7 @@ def to_octopus(
             dset_stacked[name] = (("site",), arr)
 
     # Writing format definitions
-    fmt = ",".join(len(self.freq) * ["{:8.7f}"]) + ","
+    fmt = ",".join(len(dset_stacked.freq) * ["{:8.7f}"]) + ","
     fmt2 = "{:0.0f}," + fmt + "{:8.7f}"
     fmt2 = fmt2.replace("{", "").replace("}", "").replace(":", "%").split(",")
     fmt2[-1] += ","
